@@ -70,6 +70,16 @@ func HarnessFraming(n int) {
 	vh.Assume(length <= uint32(n+4) || length > maxMessagePayload())
 	sum := vh.Bytes("checksum", 4)
 	payload := vh.Bytes("payload", n)
+	if int(length) <= n {
+		// either the right checksum (computed, so that it is the real one natively) or any wrong one
+		f := vh.Sha256(payload[:length])
+		real := vh.Sha256(f[:])
+		if vh.NondetBool("rightChecksum") {
+			sum = real[:4]
+		} else {
+			vh.Assume(!bytes.Equal(sum, real[:4]))
+		}
+	}
 	var frame bytes.Buffer
 	var command [CommandSize]byte
 	copy(command[:], cmd)
